@@ -7,18 +7,18 @@ CONSTANTS
   TagLen = 2
   MinInitLen = 2
   MsgSize = 2
-  Mode = "raw1"
+  Mode = "pm"
   RotAt = 1000
   StartN = 996
   PauseAt = 2
-  MaxMsgs1 = 1
-  MaxMsgs2 = 0
+  MaxMsgs1 = 3
+  MaxMsgs2 = 1
   MaxOps = 30
-  MaxTampers = 1
+  MaxTampers = 0
   MaxBudgetOps = 0
-  MaxDisc = 0
+  MaxDisc = 1
   CutReads = TRUE
-  CutHandshake = FALSE
+  CutHandshake = TRUE
   EmitEvery = 2
 CONSTRAINT Bound
 VIEW View
